@@ -1,32 +1,114 @@
 """Rule registry and the property -> rules table (DESIGN.md sections 3 and 4)."""
 from __future__ import annotations
 
-from .rules import dp, decode, cost, serial, utils, geom, render
+from typing import Dict, List, Optional, Sequence, Tuple
+
+from .rules import cost, decode, dp, geom, render, serial, utils
 
 RULES = {}
-RULES.update(dp.RULES)
-RULES.update(decode.RULES)
-RULES.update(cost.RULES)
-RULES.update(serial.RULES)
-RULES.update(utils.RULES)
-RULES.update(geom.RULES)
-RULES.update(render.RULES)
+for _m in (dp, decode, cost, serial, utils, geom, render):
+    RULES.update(_m.RULES)
 
-PROPERTY_RULES = {
-    "T00": list(decode.RULES),
-    "T01": list(cost.RULES),
-    "T02": list(serial.RULES),
-    "T03": list(utils.RULES),
-    "T04": list(geom.RULES),
-    "T05": list(render.RULES),
-    "C16": ["UPDATE-PAIRING", "RETENTION-GUARDS", "POLARITY", "PROXY-NONE", "COMBINE-PRODUCT"],
+# construct prefixes
+S_THL = ("compute.reconciliation:", "compute.reconciliation/", "compute.exhaustive:")
+S_SPFS = ("compute.super_reconciliation:", "compute.super_reconciliation/")
+S_USPFS = ("compute.unordered_super_reconciliation:", "compute.unordered_super_reconciliation/")
+S_EVAL = ("model.reconciliation:",)
+S_SUBSEQ = ("utils.subsequences:",)
+ALL = None
+
+Scoped = Tuple[str, Optional[Sequence[str]]]
+
+
+def _r(name: str, *scopes: Sequence[str]) -> Scoped:
+    if not scopes:
+        return name, None
+    merged: Tuple[str, ...] = ()
+    for s in scopes:
+        merged += tuple(s)
+    return name, merged
+
+
+PROPERTY_RULES: Dict[str, List[Scoped]] = {
+    "C01": [
+        _r("COSTKEYS", S_THL), _r("PRUNE", S_THL), _r("EVENT-SIG", S_THL), _r("CLASS-DOMAIN", S_THL),
+        _r("MIRROR", S_THL), _r("COMBINE-ORIENT", S_THL), _r("INFO-KEY", S_THL), _r("DECODE-GUARD", S_THL),
+        _r("DECODE-COMPLETE", S_THL), _r("DECODE-PRODUCT", S_THL), _r("LEAF-ANCHOR", S_THL),
+        _r("RESULT-SCOPE", S_THL), _r("TRAVERSAL", ("compute.reconciliation:_compute_thl",)),
+        _r("POLICY-FLOW", S_THL),
+    ],
+    "C02": [
+        _r("SENTINEL", S_SPFS, S_SUBSEQ), _r("COSTKEYS", S_SPFS), _r("PRUNE", S_SPFS), _r("EVENT-SIG", S_SPFS),
+        _r("CLASS-DOMAIN", S_SPFS), _r("MIRROR", S_SPFS), _r("COMBINE-ORIENT", S_SPFS), _r("INFO-KEY", S_SPFS),
+        _r("SIBLING-PAIRING", S_SPFS), _r("DECODE-GUARD", S_SPFS), _r("DECODE-COMPLETE", S_SPFS),
+        _r("DECODE-PRODUCT", S_SPFS), _r("LEAF-ANCHOR", S_SPFS), _r("RESULT-SCOPE", S_SPFS),
+        _r("TRAVERSAL", S_SPFS), _r("GRAPH-KEYS", S_SPFS), _r("BASE-EXT-SHARE", S_SPFS), _r("POLICY-FLOW", S_SPFS),
+    ],
+    "C03": [
+        _r("READONLY-DECODE", S_USPFS), _r("COSTKEYS", S_USPFS), _r("PRUNE", S_USPFS), _r("EVENT-SIG", S_USPFS),
+        _r("CLASS-DOMAIN", S_USPFS), _r("MIRROR", S_USPFS), _r("COMBINE-ORIENT", S_USPFS), _r("INFO-KEY", S_USPFS),
+        _r("SIBLING-PAIRING", S_USPFS), _r("DECODE-GUARD", S_USPFS), _r("DECODE-COMPLETE", S_USPFS),
+        _r("DECODE-PRODUCT", S_USPFS), _r("LEAF-ANCHOR", S_USPFS), _r("RESULT-SCOPE", S_USPFS),
+        _r("TRAVERSAL", S_USPFS), _r("BASE-EXT-SHARE", S_USPFS), _r("POLICY-FLOW", S_USPFS),
+    ],
+    "C04": [
+        _r("DECODE-GUARD"), _r("DECODE-COMPLETE"), _r("LEAF-ANCHOR"), _r("SENTINEL"), _r("READONLY-DECODE"),
+        _r("COMBINE-ORIENT"), _r("INFO-KEY"), _r("CLASS-DOMAIN"), _r("EVENT-EXHAUSTIVE"),
+    ],
+    "C05": [
+        _r("POLICY-FLOW"), _r("DECODE-PRODUCT"), _r("RESULT-SCOPE"), _r("PRUNE"), _r("UPDATE-PAIRING"),
+        _r("RETENTION-GUARDS"), _r("COMBINE-PRODUCT"),
+    ],
+    "C06": [
+        _r("MODEL-TABLE"), _r("LABEL-SIBLINGS"), _r("EVENT-EXHAUSTIVE"), _r("TRAVERSAL", S_EVAL),
+        _r("CLI-COST-SOURCE"),
+    ],
+    "C08": [
+        _r("TREE-WRITE-ARGS"), _r("FIELDS-SERIALISED"), _r("DICT-KEYS"), _r("FEATURE-COPY"),
+        _r("RESULT-SCOPE", S_SPFS, S_USPFS), _r("LABEL-PASS", ("compute.",)),
+        _r("FRESH-ATTACH", ("utils.trees:graft", "utils.trees:arrange_leaves", "utils.trees:binarize")),
+        _r("TRAVERSAL", ("utils.trees:binarize",)),
+    ],
+    "C09": [_r("MIRROR"), _r("CLASS-DOMAIN")],
+    "C10": [_r("BASE-EXT-SHARE")],
+    "C11": [_r("DICT-KEYS"), _r("FIELDS-SERIALISED"), _r("TREE-WRITE-ARGS"), _r("ENUM-DISJOINT"), _r("MAPPING-KEYING")],
+    "C12": [
+        _r("LABEL-PASS", ("cli.",)), _r("LABEL-GUARD"), _r("REGISTRY-SIGNATURE"), _r("CHOICES-ENUM"),
+        _r("ERROR-PATH"), _r("COST-OPTIONS"), _r("CLI-COST-SOURCE"),
+    ],
+    "C13": [
+        _r("KIND-EXHAUSTIVE"), _r("KIND-AGREE"), _r("ONE-EVENT-NODE"), _r("ONE-ARROW"), _r("LOSS-MARKERS"),
+        _r("STYLE-DEFINED"), _r("MEASURE-LOCKSTEP"),
+    ],
+    "C14": [_r("SIGMA-INVARIANCE"), _r("SIGMA-CLOSURE")],
+    "C15": [
+        _r("TEMPLATE-BRACES"), _r("TEMPLATE-TERMINATED"), _r("PICTURE-ENV"), _r("COLOR-INTERN"),
+        _r("ESCAPE-TAINT"), _r("ESCAPE-ORDER"), _r("LABEL-OMIT"), _r("PREORDER-STATE", ("render.",)),
+    ],
+    "C16": [_r("UPDATE-PAIRING"), _r("RETENTION-GUARDS"), _r("POLARITY"), _r("PROXY-NONE"), _r("COMBINE-PRODUCT")],
+    "C19": [_r("RESTORE-PAIRING"), _r("FRESH-STARTS"), _r("INDEG-INIT"), _r("GRAPH-KEYS")],
+    "C20": [
+        _r("COPY-BEFORE-MUTATE"),
+        _r("FRESH-ATTACH", ("utils.trees:tree_", "utils.trees:all_trees", "utils.trees:trees_")),
+    ],
 }
+
+# development groups (not registered in MANIFEST.json)
+DEV_GROUPS = {
+    "ALL": [(name, None) for name in RULES],
+}
+
+
+def in_scope(construct: str, scope: Optional[Sequence[str]]) -> bool:
+    return scope is None or any(construct.startswith(p) for p in scope)
+
 
 TRUSTED_BASE = [
     "CPython 3.12 ast module parses exactly what the interpreter runs",
     "the analysed text is what runs: /repo is installed editable, no generated module, no monkey-patching",
     "fact table for third-party code (ete3 traversal orders and leaf-only iteration, copy/detach freshness, "
     "infinity.inf ordering, tqdm transparency, itertools.product) is correct",
+    "srcheck's own normaliser / flow / resolver (about 5 kLOC of Python, exercised by the mutant+twin self-test)",
 ]
 
 ASSUMPTIONS = [
@@ -34,4 +116,201 @@ ASSUMPTIONS = [
     "a discharged rule is a necessary condition of the property, not the property itself",
 ]
 
-PROPERTY_INFO = {}
+PROPERTY_INFO: Dict[str, Dict] = {
+    "C01": {
+        "explanation": "Static analysis (ast): polynomial normal forms of every THL candidate (class entry x class "
+        "entry x combinator) are compared with the cost evaluator's charge per event kind; species ranges of "
+        "the class entries are compared with the event they are used for; pruning, mirroring, decoder guards "
+        "and traversal order are checked structurally. Decides necessary conditions of optimality and of "
+        "'does not fail', not optimality itself.",
+        "decided": [
+            "every unit cost of the evaluator is read by the optimiser (COSTKEYS)",
+            "no tag-dependent cost after pruning (PRUNE)",
+            "per event kind the composed candidate equals the evaluator's charge (EVENT-SIG)",
+            "class-entry species ranges match the event kind, both child orientations present (CLASS-DOMAIN, MIRROR)",
+            "decoded mapping is the costed one (COMBINE-ORIENT, INFO-KEY)",
+            "decoders never emit a partial mapping and enumerate all retained tags (DECODE-*)",
+            "bottom-up fill, one anchored leaf entry, one result entry ranked by cost() (TRAVERSAL, LEAF-ANCHOR, RESULT-SCOPE)",
+        ],
+        "not_decided": [
+            "that a recurrence with these properties is optimal (induction over trees)",
+            "completeness / uniqueness of generate_all (combinatorial)",
+            "F-COHERENCE (placement at the LCA costed as duplication): needs a model of ancestor relations",
+        ],
+    },
+    "C02": {
+        "explanation": "Static analysis (ast): the five class polynomials of the ordered recurrence and its six "
+        "pairings are composed and compared with the evaluator's reconciliation + ordered labelling charge "
+        "(incl. which child's end runs are free); the -1 sentinel must be tested before it is scaled; the "
+        "precedence graph must contain every family. Decides necessary conditions, not optimality.",
+        "decided": [
+            "sentinel tested before arithmetic use, dominating every call on the same pair (SENTINEL)",
+            "candidate totals = evaluator totals per kind incl. LT/LF labelling modes (EVENT-SIG)",
+            "species ranges per kind, both orientations (CLASS-DOMAIN, MIRROR)",
+            "tags name the sub-problem whose value they carry (INFO-KEY); same pairings as the unordered sibling",
+            "base variant = LCA species only, extended = all species, same engine (BASE-EXT-SHARE)",
+            "precedence graph total on its vertices, edges first->second (GRAPH-KEYS)",
+        ],
+        "not_decided": [
+            "optimality; completeness of the search over masks and root orders",
+            "empty result when no order is compatible (runtime)",
+            "values returned by subseq_segment_dist (C18)",
+        ],
+    },
+    "C03": {
+        "explanation": "Static analysis (ast): the 20 (parent kind x class x child kind) polynomials of the unordered "
+        "recurrence are composed over the six pairings and compared with the evaluator's charge under the "
+        "documented charge table; the decoder must not mutate shared sets. Necessary conditions only.",
+        "decided": [
+            "decoding performs no in-place operation on parameters / shared sets (READONLY-DECODE)",
+            "candidate totals = evaluator totals with the unordered charge table (EVENT-SIG)",
+            "ranges per kind, mirror closure, orientation, tag/row agreement, sibling pairings",
+            "required-content sets computed bottom-up (TRAVERSAL)",
+        ],
+        "not_decided": [
+            "optimality; that the two canonical labellings per node lose nothing",
+            "values of the gain / required-content sets",
+        ],
+    },
+    "C04": {
+        "explanation": "Static analysis (ast): cross-check of the sibling decoders and table fills of all solvers - "
+        "guards of single-node outputs, completeness of the spread mappings, leaf anchoring, sentinel "
+        "discipline, read-only decoding, event classification totality.",
+        "decided": [
+            "every node mapped (DECODE-GUARD, DECODE-COMPLETE)",
+            "decoded mapping is the costed one (COMBINE-ORIENT, INFO-KEY)",
+            "leaves pinned to their species / synteny with cost 0 (LEAF-ANCHOR)",
+            "non-subsequences skipped while filling (SENTINEL); shared sets not mutated (READONLY-DECODE)",
+            "no candidate family can produce an INVALID event by range (CLASS-DOMAIN); node_event total (EVENT-EXHAUSTIVE)",
+        ],
+        "not_decided": ["finiteness of the cost and family scoping as runtime facts"],
+    },
+    "C05": {
+        "explanation": "Static analysis (ast): data flow of the policy parameter into every Table / result Entry, "
+        "full product decoding, single result entry across loops, pruning discipline and the partial "
+        "evaluation of Entry.update's guards per retention policy.",
+        "decided": [
+            "policy reaches table and result entry (POLICY-FLOW)",
+            "decoders enumerate the full product of retained tags (DECODE-PRODUCT)",
+            "one result entry across refinements and root orders, ranked by cost() (RESULT-SCOPE)",
+            "co-optimal candidates are not pruned early (PRUNE)",
+            "entry semantics per policy (UPDATE-PAIRING, RETENTION-GUARDS, COMBINE-PRODUCT)",
+        ],
+        "not_decided": [
+            "equality of the returned set with the true optimal set",
+            "'exactly once' (depends on __eq__/__hash__ of ete3 nodes at run time)",
+        ],
+    },
+    "C06": {
+        "explanation": "Static analysis (ast): the evaluator's polynomial per event kind (unit cost, full-loss "
+        "polynomial, labelling terms and the optimal / fixed choice of the free copy) is extracted by copy "
+        "propagation and compared with a 12-line table of the documented model; ordered and unordered "
+        "evaluators are cross-checked as siblings.",
+        "decided": [
+            "unit cost key, full-loss polynomial and labelling modes per kind = documented model (MODEL-TABLE)",
+            "ordered and unordered evaluators charge the same child roles (LABEL-SIBLINGS)",
+            "every event member handled, INVALID -> inf, LEAF -> 0 (EVENT-EXHAUSTIVE)",
+            "masks computed parents-first (TRAVERSAL); CLI prints cost() of what it writes (CLI-COST-SOURCE)",
+        ],
+        "not_decided": [
+            "node_event's classification predicate (ancestor relations at run time)",
+            "values of distance() and subseq_segment_dist()",
+        ],
+    },
+    "C08": {
+        "explanation": "Static analysis (ast): every Newick write/read site, the field tables of the model "
+        "classes, the attribute copy in binarize, freshness of attached subtrees and the loop structure "
+        "around binarize() are checked.",
+        "decided": [
+            "refinements re-serialised with names, root name and colour; read back with a name-preserving format",
+            "all input fields survive the to_dict/from_dict rebuild",
+            "names and colours of the original nodes copied onto every refinement (FEATURE-COPY)",
+            "each refinement labelled before use; single result entry spans all refinements",
+            "enumerated trees never share sub-trees (FRESH-ATTACH); polytomies resolved bottom-up (TRAVERSAL)",
+        ],
+        "not_decided": ["the count (2k-3)!! and 'exactly once'", "that the optimum over refinements is attained"],
+    },
+    "C09": {
+        "explanation": "Static analysis (ast): closure of the candidate families of the three recurrences under "
+        "exchange of the two children (class signatures = species range + cost polynomial).",
+        "decided": ["child-order symmetry of the candidate families of THL, SPFS and USPFS (MIRROR, CLASS-DOMAIN coverage)"],
+        "not_decided": ["renaming, outgroup, re-run determinism, cost scaling and monotonicity (runtime relations)"],
+    },
+    "C10": {
+        "explanation": "Static analysis (ast): 'extended <= base' by inclusion of search spaces through one shared engine.",
+        "decided": ["base/extended share the engine; extended offers all species nodes, base the LCA species (BASE-EXT-SHARE)"],
+        "not_decided": ["unordered <= ordered, DTL <= LCA, the single-family equalities"],
+    },
+    "C11": {
+        "explanation": "Static analysis (ast): writer/reader key tables of the four model classes, Newick "
+        "arguments, enum disjointness and mapping keying.",
+        "decided": [
+            "to_dict keys = _from_dict keys; _from_dict builds exactly the dataclass fields (DICT-KEYS, FIELDS-SERIALISED)",
+            "trees written with names, root, colour and read with a compatible format (TREE-WRITE-ARGS)",
+            "cost keys unambiguous (ENUM-DISJOINT); mappings keyed by name both ways (MAPPING-KEYING)",
+        ],
+        "not_decided": ["equality of the reloaded object (ete3's Newick parser/writer are outside the analysed source)"],
+    },
+    "C12": {
+        "explanation": "Static analysis (ast): must-pass-through of label_internal on every path to a registered "
+        "algorithm, guards inside label_internal, registry signatures, option/enum agreement, error path.",
+        "decided": [
+            "every registered algorithm receives a labelled input (LABEL-PASS)",
+            "named nodes never renamed, generated names collision-checked, pre-order (LABEL-GUARD)",
+            "registry only contains dispatchable signatures (REGISTRY-SIGNATURE); choices map onto enum members (CHOICES-ENUM)",
+            "'needs syntenies' path returns before the algorithm runs, exit status 1, nothing dumped (ERROR-PATH)",
+            "one option per cost key (COST-OPTIONS); printed cost source (CLI-COST-SOURCE)",
+        ],
+        "not_decided": ["distinctness of names at run time", "all superset of any", "draw accepting every object"],
+    },
+    "C13": {
+        "explanation": "Static analysis (ast): kind dispatches are exhaustive and agree between layout, measuring "
+        "and drawing; path enumeration counts event nodes and arrows per handler; loss insertion is compared "
+        "with the evaluator's full-loss polynomial.",
+        "decided": [
+            "KIND-EXHAUSTIVE, KIND-AGREE, ONE-EVENT-NODE, ONE-ARROW",
+            "LOSS-MARKERS (oracle: evaluator signature), STYLE-DEFINED, MEASURE-LOCKSTEP",
+        ],
+        "not_decided": ["that each node is placed in the species it is mapped to (run-time filter)", "marker positions"],
+    },
+    "C14": {
+        "explanation": "Static analysis (ast transformation): the transposition sigma is applied to the syntax "
+        "trees of render/layout.py and utils/geometry.py and the canonical forms are compared - a syntactic "
+        "proof that the horizontal layout is the transposed vertical layout of the transposed sizes.",
+        "decided": ["horizontal = transposed vertical (SIGMA-INVARIANCE + SIGMA-CLOSURE)"],
+        "not_decided": ["finiteness, non-overlap, containment, anchor existence, idempotence"],
+    },
+    "C15": {
+        "explanation": "Static analysis (ast): skeletons of all TeX templates (brace balance, termination), "
+        "structure of render(), colour interning, taint tracking from names to templates through tex.escape, "
+        "order of the escape chain, label omission guard, no loop-carried colour state.",
+        "decided": [
+            "balanced braces and terminated statements for brace-free interpolants (TEMPLATE-*)",
+            "single picture environment (PICTURE-ENV); colours defined before use (COLOR-INTERN)",
+            "names escaped on every flow, in an order that does not double-escape (ESCAPE-TAINT, ESCAPE-ORDER)",
+            "label omitted only when equal to the parent's (LABEL-OMIT); colour inheritance from the parent (PREORDER-STATE)",
+        ],
+        "not_decided": ["wrapping clauses (behaviour of textwrap)", "that a label lists exactly the node's families"],
+        "assumptions": ["names and family names contain no braces (the property's quantifier)"],
+    },
+    "C16": {
+        "explanation": "Static analysis (ast): path enumeration of Entry.update, partial evaluation of its guards "
+        "with the policies fixed, polarity of defaults and comparisons, None-domination in EntryProxy, "
+        "structure of Entry.combine.",
+        "decided": ["UPDATE-PAIRING, RETENTION-GUARDS, POLARITY, PROXY-NONE, COMBINE-PRODUCT"],
+        "not_decided": ["that Python's comparison on infinity.Infinity is a total order (trusted)"],
+    },
+    "C19": {
+        "explanation": "Static analysis (ast): pairing of in-degree decrements and restores around the recursive "
+        "call, freshness of the per-iteration start set, edge counting and cycle rejection, totality of the "
+        "precedence graph.",
+        "decided": ["RESTORE-PAIRING, FRESH-STARTS, INDEG-INIT, GRAPH-KEYS"],
+        "not_decided": ["completeness / uniqueness of the enumeration as such", "Kahn's loop"],
+    },
+    "C20": {
+        "explanation": "Static analysis (ast): branch isolation of the two-block enumeration (deep copies) and of "
+        "the tree enumeration (fresh attachments, interprocedural freshness summaries).",
+        "decided": ["COPY-BEFORE-MUTATE", "FRESH-ATTACH"],
+        "not_decided": ["every 'exactly the trees displaying every triple' clause", "union-find values"],
+    },
+}
